@@ -134,18 +134,54 @@ class PyCodec(object):
     def new(self, tname):
         return self.ns[tname]()
 
-    def build(self, tname, val):
+    def build(self, tname, val, enum_args=None):
+        """enum_args: an EnumArgs object - enum-typed scalars are then assigned in varying argument kinds (number, name,
+        enumerator object of the field's enum, enumerator object of another enum with the same number)."""
         msg = self.new(tname)
-        fill(msg, self.schema, tname, val)
+        fill(msg, self.schema, tname, val, enum_args)
         return msg
 
     def snapshot(self, tname, msg):
         return snapshot(msg, self.schema, tname)
 
 
-def fill(msg, schema, tname, val):
+class EnumArgs(object):
+    """Turns the number of an enumerator into one of the argument kinds the runtime accepts for an enum field."""
+    KINDS = ('number', 'name', 'own_object', 'foreign_object')
+
+    def __init__(self, ns, start=0):
+        self.ns, self.i, self.used = ns, start, set()
+        self._foreign = {}
+
+    def __call__(self, enum_decl, number):
+        kind = self.KINDS[self.i % len(self.KINDS)]
+        self.i += 1
+        self.used.add(kind)
+        if kind == 'name':
+            return [m[0] for m in enum_decl.members if m[1] == number][-1]
+        if kind == 'own_object':
+            return self.ns[enum_decl.name](number)
+        if kind == 'foreign_object':
+            # an enumerator that was read from a field of *another* enum type which happens to use the same number
+            # (translating a message of an older interface revision field by field)
+            if number not in self._foreign:
+                import prophy
+                cls = prophy.enum_generator('PvForeign%d' % len(self._foreign), (prophy.enum,),
+                                            {'_enumerators': [('PvForeign_other', number ^ 1), ('PvForeign_same', number)]})
+                holder = prophy.struct_generator('PvForeignHolder%d' % len(self._foreign), (prophy.struct,),
+                                                 {'_descriptor': [('e', cls)]})
+                h = holder()
+                h.e = number
+                self._foreign[number] = h.e
+            return self._foreign[number]
+        return number
+
+
+def fill(msg, schema, tname, val, enum_args=None):
     """Set `val` into `msg` through the public API."""
     t = schema.resolve(tname)
+    ea = (lambda tn, v: enum_args(schema.resolve(tn), v) if isinstance(schema.resolve(tn), Enum) else v) \
+        if enum_args else (lambda tn, v: v)
     if val is UNSET:
         return
     if isinstance(t, Union):
@@ -154,9 +190,9 @@ def fill(msg, schema, tname, val):
         if val[1] is UNSET:
             return
         if schema.is_composite(arm.type):
-            fill(getattr(msg, arm.name), schema, arm.type, val[1])
+            fill(getattr(msg, arm.name), schema, arm.type, val[1], enum_args)
         else:
-            setattr(msg, arm.name, val[1])
+            setattr(msg, arm.name, ea(arm.type, val[1]))
         return
     assert isinstance(t, Struct), t
     sizers = t.sizers()
@@ -171,31 +207,31 @@ def fill(msg, schema, tname, val):
             setattr(msg, m.name, v)
         elif m.kind == PLAIN:
             if comp:
-                fill(getattr(msg, m.name), schema, m.type, v)
+                fill(getattr(msg, m.name), schema, m.type, v, enum_args)
             else:
-                setattr(msg, m.name, v)
+                setattr(msg, m.name, ea(m.type, v))
         elif m.kind == OPT:
             if v is None:
                 setattr(msg, m.name, None)
             elif comp:
                 setattr(msg, m.name, True)
-                fill(getattr(msg, m.name), schema, m.type, v)
+                fill(getattr(msg, m.name), schema, m.type, v, enum_args)
             else:
-                setattr(msg, m.name, v)
+                setattr(msg, m.name, ea(m.type, v))
         elif m.kind == FIXARR:
             arr = getattr(msg, m.name)
             if comp:
                 for i, x in enumerate(v):
-                    fill(arr[i], schema, m.type, x)
+                    fill(arr[i], schema, m.type, x, enum_args)
             else:
-                arr[:] = v
+                arr[:] = v if m.is_bytes else [ea(m.type, x) for x in v]
         else:
             arr = getattr(msg, m.name)
             if comp:
                 for x in v:
-                    fill(arr.add(), schema, m.type, x)
+                    fill(arr.add(), schema, m.type, x, enum_args)
             else:
-                arr[:] = v
+                arr[:] = v if m.is_bytes else [ea(m.type, x) for x in v]
 
 
 def _plain(v):
